@@ -12,7 +12,7 @@ OCAML = os.path.join(VERIF, 'ocaml')
 GUARD = 'PSEUDOENGINE2_VERIF'
 NCPU = int(os.environ.get('PE2_JOBS', str(os.cpu_count() or 4)))
 
-DEFAULT_LIMITS = dict(steps=20000, depth=150, cells=20000, strlen=100000)
+DEFAULT_LIMITS = dict(steps=3000, depth=100, cells=5000, strlen=20000)
 
 FLAGS = {
     'normal': ['-std=c++20', '-O1', '-g0', '-D' + GUARD],
@@ -281,7 +281,7 @@ def glibc_rand(seed, n):
 
 RAND_LINE = 'rand ' + ' '.join(str(x) for x in glibc_rand(1, 600))
 
-def model_input(cases, fuel=60000):
+def model_input(cases, fuel=8000):
     out = []
     for i, c in enumerate(cases):
         out.append('case %d' % i)
@@ -336,7 +336,7 @@ def parse_model_output(txt, n):
             o.lexerr = (p[1], int(p[2]), int(p[3]))
     return res
 
-def run_model(cases, exe, fuel=60000, timeout=600, chunk=64):
+def run_model(cases, exe, fuel=8000, timeout=600, chunk=32):
     """runs all cases through the extracted model, in parallel chunks"""
     def work(idx):
         part = cases[idx:idx + chunk]
